@@ -15,6 +15,7 @@ def _od():
     od.add_object(C.mkvar("Octets", 0x2101, 0, OCT))
     od.add_object(C.mkvar("Unicode", 0x2102, 0, UNI))
     od.add_object(C.mkvar("Domain", 0x2103, 0, DOM))
+    od.add_object(C.mkvar("Serial", 0x2104, 0, VIS, "ro", default="SN-0001"))
     od.add_object(C.mkrecord("Record", 0x2200, [C.mkvar("n", 0x2200, 0, C.U8, "ro", default=2),
                                                 C.mkvar("Member", 0x2200, 1, 0x03),
                                                 C.mkvar("Other", 0x2200, 2, 0x07)]))
@@ -295,6 +296,65 @@ def two_nodes(discipline):
     sx.reach("two-nodes")
 
 
+def after_failed_write(discipline):
+    """a typed write that the node refuses at the end of a segmented transfer (text for a read-only object), then a
+    good one to another object: the good value round-trips and the node holds exactly its encoding"""
+    w = World(discipline)
+    E = sx.mod("canopen.sdo.exceptions")
+    bad = sx.fresh_str("bad", 9, 1, 127)
+    try:
+        w.remote.sdo["Serial"].raw = bad
+        sx.fail("write to a read-only object accepted", "C03/after-failed/not-refused")
+    except E.SdoAbortedError:
+        pass
+    good = sx.fresh_str("good", 8, 1, 127)
+    w.remote.sdo["Visible"].raw = good
+    it = sx.items(w.local.data_store[0x2100][0])
+    sx.observe("stored", w.local.data_store[0x2100][0])
+    sx.prove(len(it) == 8 and sx.all_([it[i] == sx.cps(good)[i] for i in range(min(8, len(it)))]) is not False,
+             "bytes held after an earlier refused transfer", "C03/after-failed/stored-length")
+    if len(it) == 8:
+        sx.prove(sx.all_([it[i] == sx.cps(good)[i] for i in range(8)]), "bytes held are the encoding of the value",
+                 "C03/after-failed/stored-bytes")
+    sx.prove(w.remote.sdo["Visible"].raw == good, "read back after an earlier refused transfer",
+             "C03/after-failed/remote-read")
+    sx.reach("after-failed")
+
+
+def shared_dictionary():
+    """two local nodes created from one ObjectDictionary object (create_node/add_node allow it): a value written to
+    one of them is not seen through the other"""
+    netmod = sx.mod("canopen.network")
+    na, nb = netmod.Network(), netmod.Network()
+    na.send_message = lambda cid, data, remote=False: nb.notify(cid, sx.mkbytes(sx.items(data)), 1.0)
+    nb.send_message = lambda cid, data, remote=False: na.notify(cid, sx.mkbytes(sx.items(data)), 1.0)
+    od = _od()
+    od[C.TYPE_INDEX[0x06]].default = 0x1111
+    l1 = sx.mod("canopen.node.local").LocalNode(NID, od)
+    l2 = sx.mod("canopen.node.local").LocalNode(NID2, od)
+    nb.add_node(l1)
+    nb.add_node(l2)
+    r1 = sx.mod("canopen.node.remote").RemoteNode(NID, _od())
+    r2 = sx.mod("canopen.node.remote").RemoteNode(NID2, _od())
+    na.add_node(r1)
+    na.add_node(r2)
+    E = sx.mod("canopen.sdo.exceptions")
+    a = sx.fresh_int("a", 0, 0xFFFFFFFF)
+    h = sx.fresh_int("h", 0, 0xFFFF)
+    r1.sdo[C.TYPE_INDEX[0x07]].raw = a            # an object without default
+    r1.sdo[C.TYPE_INDEX[0x06]].raw = h            # an object with a default
+    sx.prove(r1.sdo[C.TYPE_INDEX[0x07]].raw == a, "node 1 value", "C03/shared-od/node1")
+    try:
+        v = r2.sdo[C.TYPE_INDEX[0x07]].raw
+        sx.fail("node 2 returns a value that was only written to node 1", "C03/shared-od/leak")
+    except E.SdoAbortedError:
+        pass
+    sx.prove(r2.sdo[C.TYPE_INDEX[0x06]].raw == 0x1111, "node 2 still serves the default, not node 1's value",
+             "C03/shared-od/default")
+    sx.prove(len(l2.data_store) == 0, "node 2 holds nothing", "C03/shared-od/store")
+    sx.reach("shared-od")
+
+
 def concurrent_send(k):
     """client threads of different nodes share Network.send_message: requests must not be mixed up on their way
     to the bus (scenario shared with C10)"""
@@ -316,6 +376,9 @@ def jobs(tier):
         out.append(dict(func="two_nodes", params=dict(discipline=d)))
     for k in (2, 3):
         out.append(dict(func="concurrent_send", params=dict(k=k), weight=3 ** k))
+    for d in disciplines:
+        out.append(dict(func="after_failed_write", params=dict(discipline=d), weight=3))
+    out.append(dict(func="shared_dictionary", params={}))
     for k in (1, 2, 3):
         out.append(dict(func="stale_responses", params=dict(k=k)))
         for code in (S301.REAL32, S301.REAL64):
@@ -352,7 +415,7 @@ META = dict(
                     "NUL", "non-BMP text"],
     assumptions=["at most 2 noise injections per scenario; noise ids outside every predefined connection set"],
     stubs=["queue with delivery hook", "struct", "bytes", "io model", "logging", "Network.send_message replaced by the loopback"],
-    required_reach=["concurrent-send", "numeric-inline", "numeric-deferred", "numeric-interleaved", "access-index", "access-name", "boolean",
+    required_reach=["concurrent-send", "after-failed", "shared-od", "numeric-inline", "numeric-deferred", "numeric-interleaved", "access-index", "access-name", "boolean",
                     "real", "text", "blob", "domain-segmented", "record", "two-nodes", "stale-responses"],
     limits=dict(quick=dict(max_decisions=50000), thorough=dict(max_decisions=100000)),
     validate_every=dict(quick=7, thorough=50),
